@@ -128,6 +128,10 @@ pub struct Ctl {
     /// chunk storage only exposes written bytes to reads after `flush` (like a buffered file)
     pub staging: bool,
     pub reentrant_uses: u64,
+    /// the components implement write_vectored / read_vectored natively (gathering / scattering across slices,
+    /// with the same short transfers and interruptions) instead of relying on std's defaults
+    pub vectored: bool,
+    pub vectored_calls: u64,
 }
 
 pub type Shared = Rc<RefCell<Ctl>>;
@@ -139,6 +143,8 @@ pub fn ctl() -> Shared {
 pub fn ctl_with_tape(tape: &[u8]) -> Shared {
     let c = ctl();
     c.borrow_mut().tape = normalise_tape(tape);
+    // half of the schedules drive components that implement vectored I/O natively
+    c.borrow_mut().vectored = tape.iter().map(|b| *b as u32).sum::<u32>() % 2 == 1;
     c
 }
 
@@ -249,6 +255,39 @@ impl Write for Sink {
         }
         Ok(())
     }
+
+    fn write_vectored(&mut self, bufs: &[io::IoSlice<'_>]) -> io::Result<usize> {
+        if !self.ctl.borrow().vectored {
+            // std's default: the first non-empty slice only
+            let buf = bufs.iter().find(|b| !b.is_empty()).map_or(&[][..], |b| &**b);
+            return self.write(buf);
+        }
+        let mut c = self.ctl.borrow_mut();
+        c.vectored_calls += 1;
+        let total: usize = bufs.iter().map(|b| b.len()).sum();
+        if let Some(e) = c.enter(Kind::Write) {
+            if e == ErrKind::ReturnsZero && total > 0 {
+                return Ok(0);
+            }
+            return Err(injected(e));
+        }
+        match c.step(total) {
+            Step::Interrupted => Err(io::Error::new(io::ErrorKind::Interrupted, "verif-interrupted")),
+            Step::Transfer(n) => {
+                let mut left = n;
+                let mut data = self.data.borrow_mut();
+                for b in bufs {
+                    let k = left.min(b.len());
+                    data.extend_from_slice(&b[..k]);
+                    left -= k;
+                    if left == 0 {
+                        break;
+                    }
+                }
+                Ok(n)
+            }
+        }
+    }
 }
 
 /// A sink that hands its bytes over only when flushed (like a BufWriter borrowed by the writer, or a staging writer
@@ -284,11 +323,17 @@ pub struct Source {
     pub data: Rc<Vec<u8>>,
     pub pos: u64,
     pub ctl: Shared,
+    /// seek like an OS file: positions beyond i64::MAX are refused (lseek takes a signed offset), whereas an in-memory
+    /// cursor accepts any u64
+    pub file_like: bool,
 }
 
 impl Source {
     pub fn new(data: Rc<Vec<u8>>, ctl: Shared) -> Source {
-        Source { data, pos: 0, ctl }
+        Source { data, pos: 0, ctl, file_like: false }
+    }
+    pub fn file_like(data: Rc<Vec<u8>>, ctl: Shared) -> Source {
+        Source { data, pos: 0, ctl, file_like: true }
     }
 }
 
@@ -328,6 +373,53 @@ impl Read for Source {
             }
         }
     }
+
+    fn read_vectored(&mut self, bufs: &mut [io::IoSliceMut<'_>]) -> io::Result<usize> {
+        if self.ctl.borrow().vectored {
+            return self.read_scatter(bufs);
+        }
+        // std's default: the first non-empty buffer only
+        match bufs.iter_mut().find(|b| !b.is_empty()) {
+            Some(b) => self.read(b),
+            None => self.read(&mut []),
+        }
+    }
+}
+
+impl Source {
+    /// scattering read used when `ctl.vectored` is set
+    fn read_scatter(&mut self, bufs: &mut [io::IoSliceMut<'_>]) -> io::Result<usize> {
+        let mut c = self.ctl.borrow_mut();
+        c.vectored_calls += 1;
+        if let Some(e) = c.enter(Kind::Read) {
+            return Err(injected(e));
+        }
+        let start = (self.pos as usize).min(self.data.len());
+        let total: usize = bufs.iter().map(|b| b.len()).sum();
+        let want = total.min(self.data.len() - start);
+        if want == 0 {
+            return Ok(0);
+        }
+        match c.step(want) {
+            Step::Interrupted => Err(io::Error::new(io::ErrorKind::Interrupted, "verif-interrupted")),
+            Step::Transfer(n) => {
+                let mut off = 0;
+                for b in bufs.iter_mut() {
+                    let k = (n - off).min(b.len());
+                    b[..k].copy_from_slice(&self.data[start + off..start + off + k]);
+                    off += k;
+                    if off == n {
+                        break;
+                    }
+                }
+                if c.log_enabled {
+                    c.log.push(IoEvent::Read { pos: start as u64, len: n });
+                }
+                self.pos += n as u64;
+                Ok(n)
+            }
+        }
+    }
 }
 
 impl Seek for Source {
@@ -337,6 +429,9 @@ impl Seek for Source {
             return Err(injected(e));
         }
         let n = do_seek(self.data.len() as u64, self.pos, style)?;
+        if self.file_like && n > i64::MAX as u64 {
+            return Err(io::Error::new(io::ErrorKind::InvalidInput, "Invalid argument (file-like source: offset beyond i64::MAX)"));
+        }
         self.pos = n;
         if c.log_enabled {
             c.log.push(IoEvent::Seek(n));
